@@ -22,7 +22,10 @@ def quick_shapes():
         b, replace(b, aki=True), replace(b, san=(1, 3)), replace(b, san=(0, 2)), replace(b, ku=1), replace(b, eku=(1, 7)), replace(b, nc=1),
         replace(b, nc=2, nc_perm=(1,), nc_excl=(2,)), replace(b, nc=2, nc_perm=(0, 3)), replace(b, crl_dps=(2,)), replace(b, is_ca=1),
         replace(b, is_ca=3, path_len=128), replace(b, custom=1, custom_crit=1),
-        replace(b, aki=True, san=(1, 3), ku=4, eku=(1, 2), nc=2, nc_perm=(1,), nc_excl=(3,), crl_dps=(2,), is_ca=3, path_len=5, custom=2, custom_crit=2),
+        # (the shape with everything at once takes > 500 s alone and is the long pole of the quick tier: two halves here, the whole in thorough;
+        #  presence / order of all extensions at once is decided symbolically by engine M's ext_presence)
+        replace(b, aki=True, san=(1, 3), ku=4, eku=(1, 2), is_ca=3, path_len=5),
+        replace(b, nc=2, nc_perm=(1,), nc_excl=(3,), crl_dps=(2,), custom=2, custom_crit=2),
         replace(b, issuance=1, aki=True, san=(1,), ku=1, is_ca=2, serial=4, serial_b0=0x80),
         replace(b, issuance=2, aki=True, san=(0,), eku=(2,), ku=1),
     ]
@@ -102,6 +105,8 @@ def spec(tier, seed):
                 if n > 0:
                     more.append(replace(b, serial=n, serial_b0=b0, is_ca=1))
         more.append(replace(b, serial=0))
+        # every extension-bearing field at once (517 s alone; passed in the thorough run of the final code)
+        more.append(replace(b, aki=True, san=(1, 3), ku=4, eku=(1, 2), nc=2, nc_perm=(1,), nc_excl=(3,), crl_dps=(2,), is_ca=3, path_len=5, custom=2, custom_crit=2))
         for ca in (0, 1, 2, 3):
             for iss in (0, 1, 2):
                 more.append(replace(b, issuance=iss, is_ca=ca, aki=(iss > 0), san=(1,), ku=1))
